@@ -1,12 +1,13 @@
 """C18 — configuration of tools/check.py and text of the MANIFEST entry."""
 
 PROP = {
-    "targets": ["Props/C18.vo", "Corr/CorrCore.vo"],
-    "cone": ["Sem/SemProofs.v"],
+    "targets": ["Props/C18.vo", "Corr/CorrCore.vo", "Bridge/BrC0809.vo"],
+    "cone": ["Sem/SemProofs.v", "Bridge/BrC0809.v"],
     "harness": "c18",
     "mismatch_div": 16,
     "failure_bits": 8,
-    "trusted": ["reference semantics Sem/Sem.v + primitive operations Sem/Prim.v (the theorems of Props/C18.v are ABOUT this semantics; it is executed against vm.Run on every run, together with the model compiler and model VM, on exactly the programs of both sides of every identity)",
+    "trusted": ["purity premise of the functional model (no state survives a Compile / Run call): Bridge/BrC0809.v over the regenerated write / call / package-variable inventory - a cache or other package-level state breaks it",
+                "reference semantics Sem/Sem.v + primitive operations Sem/Prim.v (the theorems of Props/C18.v are ABOUT this semantics; it is executed against vm.Run on every run, together with the model compiler and model VM, on exactly the programs of both sides of every identity)",
                 "the tie reference semantics <-> compiled code for all programs is C01's (compiler-correctness proof + executed correspondence)",
                 "harness environment universe mirrored in Corr/Universe.v; regexp and math.Pow are oracle tables computed by Go"],
     "assumptions": ["collections are Go slices (at most MaxInt elements); maps are excluded from count = len(filter) (filter over a map fails at the element fetch)",
